@@ -21,7 +21,7 @@ var plainNames = []string{"pet", "owner", "tag", "item", "order", "user", "thing
 
 // alphabet of the properties: spaces, unicode, '/', '~', '?', '#', brackets and braces (never '%', '.', '"', '\\')
 var exoticNames = []string{"a b", "é", "x/y", "t~k", "q?", "h#h", "b[0]", "c{d}", "ünï cödé", "sp ace/sl~ash",
-	"x y/z~w", "日本", "w{id}", "m[n]/o", "~tilde", "/lead", "trail/", "q?r#s", " lead space"}
+	"x y/z~w", "日本", "w{id}", "m[n]/o", "~tilde", "/lead", "trail/", "q?r#s", " lead space", "?", "{}", "[]", "_", "-", "? ?"}
 
 func init() {
 	// SIM_EXOTIC="a b,é" replaces the pool of exotic names (triage aid: which name classes still fail)
@@ -154,6 +154,7 @@ func genBundle(r *R, opts FlatOpts, plus bool, thorough bool, force map[string]b
 	flag("multiReferrers", 50)
 	flag("auxOnlyViaShared", 12)
 	flag("altSpelling", 25)
+	flag("untyped", 25)
 	flag("unusedShared", 20)
 	flag("sameDirTwins", 10)
 	flag("rootNoDefs", 10)
@@ -322,6 +323,9 @@ func (g *bundleGen) assemble(d *gDoc) obj {
 		if g.r.P(50) {
 			doc["consumes"] = []any{"application/json"}
 			doc["produces"] = []any{"application/json"}
+			if g.r.P(25) {
+				doc["consumes"] = []any{"application/xml", "application/json", "application/xml", "text/csv"}
+			}
 		}
 		if g.r.P(30) {
 			doc["host"] = "example.org"
@@ -552,6 +556,22 @@ func (g *bundleGen) primitive() obj {
 
 // schema generates a schema for document d. owner is the definition being generated ("" outside definitions).
 func (g *bundleGen) schema(d *gDoc, depth int, noRef bool, owner string) obj {
+	s := g.schemaTyped(d, depth, noRef, owner)
+	// the "type" keyword is optional: sometimes an array / tuple / object goes without it
+	if g.on("untyped") && g.r.P(20) {
+		if t, _ := s["type"].(string); t == "array" || t == "object" {
+			_, isTuple := s["items"].([]any)
+			// (tuples keep their type: an untyped tuple is classified as a plain schema by the library, and the
+			// properties' grammar only has typed tuples)
+			if _, isRef := refOf(s); !isRef && !isTuple && (s["items"] != nil || s["properties"] != nil || s["additionalProperties"] != nil) {
+				delete(s, "type")
+			}
+		}
+	}
+	return s
+}
+
+func (g *bundleGen) schemaTyped(d *gDoc, depth int, noRef bool, owner string) obj {
 	r := g.r
 	if d.isRoot && g.rootNoRef {
 		noRef = true
@@ -964,9 +984,15 @@ func (g *bundleGen) operation(d *gDoc, pathHasID bool, pathLevelBody bool) obj {
 	if g.on("opMedia") && r.P(50) {
 		if r.P(60) {
 			op["consumes"] = []any{"application/xml", "application/json"}
+			if r.P(35) {
+				op["consumes"] = []any{"application/json", "application/json", "text/plain"} // repeated media type
+			}
 		}
 		if r.P(60) {
 			op["produces"] = []any{"text/plain"}
+			if r.P(35) {
+				op["produces"] = []any{"application/xml", "application/json", "application/xml", "text/csv"}
+			}
 		}
 		if r.P(40) {
 			op["tags"] = []any{"pets"}
